@@ -56,6 +56,34 @@ pub struct TreeSpec {
     /// disk: names that are not valid UTF-8 (the specification itself stays valid JSON)
     #[serde(default)]
     pub raw_byte: Option<u8>,
+    /// many entries of one kind in one directory, created after `nodes` (names `b00000`, …):
+    /// exact counts such as 256 or 65536 without a specification of megabytes
+    #[serde(default)]
+    pub bulk: Vec<Bulk>,
+}
+
+#[derive(Clone, Debug, PartialEq, Eq, Serialize, Deserialize)]
+pub struct Bulk {
+    /// existing directory (a path of `nodes`)
+    pub dir: String,
+    pub count: usize,
+    pub kind: BulkKind,
+}
+
+#[derive(Clone, Copy, Debug, PartialEq, Eq, Serialize, Deserialize)]
+pub enum BulkKind {
+    /// empty regular files
+    File,
+    /// directories with mode 000: each one cannot be read
+    Dir000,
+    /// symbolic links that point at themselves: each one cannot be resolved
+    SelfLink,
+    /// directories holding one file each: none of them can be removed by rmdir
+    DirWithFile,
+}
+
+pub fn bulk_name(i: usize) -> String {
+    format!("b{i:05}")
 }
 
 /// Private-use character standing for `TreeSpec::raw_byte` in names.
@@ -113,6 +141,7 @@ impl TreeSpec {
             nodes: self.nodes.iter().filter(|n| keep(n.path())).cloned().collect(),
             chmods: self.chmods.iter().filter(|(q, _)| keep(q)).cloned().collect(),
             raw_byte: self.raw_byte,
+            bulk: self.bulk.iter().filter(|b| keep(&b.dir)).cloned().collect(),
         }
     }
 }
@@ -173,6 +202,26 @@ pub fn build(root: &Path, spec: &TreeSpec) -> io::Result<()> {
                 let c = CString::new(p.as_os_str().as_bytes()).unwrap();
                 if unsafe { libc::mkfifo(c.as_ptr(), 0o644) } != 0 {
                     return Err(io::Error::last_os_error());
+                }
+            }
+        }
+    }
+    for b in &spec.bulk {
+        let dir = disk_path(root, spec.raw_byte, &b.dir);
+        for i in 0..b.count {
+            let p = dir.join(bulk_name(i));
+            match b.kind {
+                BulkKind::File => {
+                    fs::File::create(&p)?;
+                }
+                BulkKind::Dir000 => {
+                    fs::create_dir(&p)?;
+                    fs::set_permissions(&p, fs::Permissions::from_mode(0))?;
+                }
+                BulkKind::SelfLink => symlink(bulk_name(i), &p)?,
+                BulkKind::DirWithFile => {
+                    fs::create_dir(&p)?;
+                    fs::File::create(p.join("keep"))?;
                 }
             }
         }
